@@ -31,8 +31,17 @@ def op_table(report: Report):
                 prob = f"modes: spec {s[1]} vs pyteal {pm}"
         report.ob(Ob(id=f"O4.3/op/{m}", function="pyteal.ir.ops.Op", kind="E", status="refuted" if prob else "discharged",
                      backend="enumeration(Op enum)", detail=f"{m}: mnemonic exists in the AVM spec with the same first version and modes", model=prob))
+    # every member name denotes its own table row: two names sharing one row (an Enum alias) mean that one of them carries another op's mnemonic
+    for enum_cls, label in ((pt.Op, "Op"),):
+        alias = sorted(n for n, mem in enum_cls.__members__.items() if mem.name != n)
+        report.ob(Ob(id=f"O4.3/{label}/no-aliased-rows", function="pyteal.ir.ops.Op", kind="E", status="refuted" if alias else "discharged", backend="enumeration(Op.__members__)",
+                     detail="no two member names of the opcode table share one (mnemonic, mode, version) row", model=alias or None))
     from pyteal.ast.txn import TxnField
     from pyteal.ast.global_ import GlobalField
+    for enum_cls, label in ((TxnField, "TxnField"), (GlobalField, "GlobalField")):
+        alias = sorted(n for n, mem in enum_cls.__members__.items() if mem.name != n)
+        report.ob(Ob(id=f"O4.3/{label}/no-aliased-rows", function=f"pyteal {label}", kind="E", status="refuted" if alias else "discharged", backend=f"enumeration({label}.__members__)",
+                     detail="no two member names of the field table share one row", model=alias or None))
     for f in TxnField:
         s = L.TXN_FIELDS.get(f.arg_name)
         prob = None
